@@ -24,7 +24,8 @@ from pbt.core import Collector, HarnessError, mksig
 ID = "C13"
 RULE = ("statement programs of every kind (select / insert / insert..select / upsert / update / delete / create / drop) x six classes; for each up to 12 random "
         "admissible call orders and up to 6 sub-lists; SQLite programs are prepared by the engine; plus the complete enumeration of set-operation clause calls (5 operators x operand tails x every ordered subset of orderby/limit/offset x six classes). Non-trivial = >= 3 distinct clauses and >= 2 admissible "
-        "orders that differ; distinct = distinct (program, order). Select programs may carry a self-join whose second table object is mentioned in WHERE / HAVING (the automatic alias must show whatever the call order).")
+        "orders that differ; distinct = distinct (program, order). Select programs may carry a self-join whose second table object is mentioned in WHERE / HAVING (the automatic alias must show whatever the call order)."
+        " Plus an enumerated family: every accumulating clause (27 of them, DDL, CASE, FILTER and OVER included) called twice with markers - both calls rendered, in call order.")
 ASSUMPTIONS = [
     "admissible orders keep: calls to the same clause, into vs select, on_conflict < handler < where and any where vs on_conflict, update/delete vs select, "
     "as_select vs columns, from_ before joins, into before columns/insert/on_conflict, DML marker before returning, pagination setters among themselves, set-operation creation as a barrier",
@@ -554,6 +555,79 @@ def check_incomplete_setop(case):
     return []
 
 
+# ---- enumerated family: repeated calls to one clause accumulate in call order -------------------------------------------------------
+
+def accumulate_cases():
+    for cls in CTXS:
+        for name in sorted(ACCUMULATING):
+            yield {"family": "accumulate", "cls": cls, "clause": name}
+
+
+def _acc(cls):
+    import pypika_tortoise as P
+
+    Q = prog.query_cls(cls)
+    t, u, v = P.Table("t"), P.Table("u"), P.Table("v")
+    return P, Q, t, u, v
+
+
+ACCUMULATING = {
+    # name -> builder(cls) -> statement in which the clause was called twice, first with the marker m1q, then with m2q
+    "where": lambda c: (lambda P, Q, t, u, v: Q.from_(t).select(t.a).where(t.m1q == 1).where(t.m2q == 2))(*_acc(c)),
+    "prewhere": lambda c: (lambda P, Q, t, u, v: Q.from_(t).select(t.a).prewhere(t.m1q == 1).prewhere(t.m2q == 2))(*_acc(c)),
+    "having": lambda c: (lambda P, Q, t, u, v: Q.from_(t).select(t.a).groupby(t.a).having(t.m1q == 1).having(t.m2q == 2))(*_acc(c)),
+    "select": lambda c: (lambda P, Q, t, u, v: Q.from_(t).select(t.m1q).select(t.m2q))(*_acc(c)),
+    "groupby": lambda c: (lambda P, Q, t, u, v: Q.from_(t).select(t.a).groupby(t.m1q).groupby(t.m2q))(*_acc(c)),
+    "orderby": lambda c: (lambda P, Q, t, u, v: Q.from_(t).select(t.a).orderby(t.m1q).orderby(t.m2q))(*_acc(c)),
+    "from_": lambda c: (lambda P, Q, t, u, v: Q.from_(P.Table("m1q")).from_(P.Table("m2q")).select("a"))(*_acc(c)),
+    "join": lambda c: (lambda P, Q, t, u, v: Q.from_(t).join(P.Table("m1q")).cross().join(P.Table("m2q")).cross().select(t.a))(*_acc(c)),
+    "with_": lambda c: (lambda P, Q, t, u, v: Q.with_(Q.from_(u).select(u.m1q), "c1").with_(Q.from_(v).select(v.m2q), "c2").from_(t).select(t.a))(*_acc(c)),
+    "set": lambda c: (lambda P, Q, t, u, v: Q.update(t).set(t.m1q, 1).set(t.m2q, 2))(*_acc(c)),
+    "insert_rows": lambda c: (lambda P, Q, t, u, v: Q.into(t).insert(P.Field("m1q")).insert(P.Field("m2q")))(*_acc(c)),
+    "columns": lambda c: (lambda P, Q, t, u, v: Q.into(t).columns("m1q").columns("m2q").insert(1, 2))(*_acc(c)),
+    "do_update": lambda c: (lambda P, Q, t, u, v: Q.into(t).insert(1).on_conflict("id").do_update("m1q", 1).do_update("m2q", 2))(*_acc(c)),
+    "on_conflict_where": lambda c: (lambda P, Q, t, u, v: Q.into(t).insert(1).on_conflict("id").where(t.m1q == 1).where(t.m2q == 2).do_update("a", 1))(*_acc(c)),
+    "do_update_where": lambda c: (lambda P, Q, t, u, v: Q.into(t).insert(1).on_conflict("id").do_update("a", 1).where(t.m1q == 1).where(t.m2q == 2))(*_acc(c)),
+    "force_index": lambda c: (lambda P, Q, t, u, v: Q.from_(t).select(t.a).force_index("m1q").force_index("m2q"))(*_acc(c)),
+    "use_index": lambda c: (lambda P, Q, t, u, v: Q.from_(t).select(t.a).use_index("m1q").use_index("m2q"))(*_acc(c)),
+    "create_columns": lambda c: (lambda P, Q, t, u, v: Q.create_table("n").columns(P.Column("m1q", "INT")).columns(P.Column("m2q", "INT")))(*_acc(c)),
+    "create_unique": lambda c: (lambda P, Q, t, u, v: Q.create_table("n").columns(P.Column("a", "INT")).unique("m1q").unique("m2q"))(*_acc(c)),
+    "setop": lambda c: (lambda P, Q, t, u, v: Q.from_(t).select(t.a).union(Q.from_(u).select(u.m1q)).union(Q.from_(v).select(v.m2q)))(*_acc(c)),
+    "case_when": lambda c: (lambda P, Q, t, u, v: Q.from_(t).select(P.Case().when(t.m1q == 1, 1).when(t.m2q == 2, 2).else_(0)))(*_acc(c)),
+    "agg_filter": lambda c: (lambda P, Q, t, u, v: Q.from_(t).select(P.functions.Sum(t.a).filter(t.m1q == 1).filter(t.m2q == 2)))(*_acc(c)),
+    "analytic_over": lambda c: (lambda P, Q, t, u, v: Q.from_(t).select(P.analytics.Sum(t.a).over(t.m1q).over(t.m2q)))(*_acc(c)),
+    "analytic_orderby": lambda c: (lambda P, Q, t, u, v: Q.from_(t).select(P.analytics.Sum(t.a).over(t.b).orderby(t.m1q).orderby(t.m2q)))(*_acc(c)),
+    "returning": lambda c: (lambda P, Q, t, u, v: Q.into(t).insert(1).returning(t.m1q).returning(t.m2q))(*_acc(c)),
+    "distinct_on": lambda c: (lambda P, Q, t, u, v: Q.from_(t).select(t.a).distinct_on(t.m1q).distinct_on(t.m2q))(*_acc(c)),
+}
+CLASS_ONLY = {"returning": ("postgresql",), "distinct_on": ("postgresql",)}
+
+
+def check_accumulate(case):
+    cls, name = case["cls"], case["clause"]
+    if name in CLASS_ONLY and cls not in CLASS_ONLY[name]:
+        return []
+    if cls == "mysql" and name in ("on_conflict_where", "do_update_where"):
+        return []  # ON DUPLICATE KEY UPDATE has no WHERE: the position is not rendered
+    try:
+        q = ACCUMULATING[name](cls)
+        sql = q.get_sql(prog.sql_context(cls))
+    except Exception as e:
+        if type(e).__module__.startswith("pypika_tortoise"):
+            return []
+        return [(mksig("accumulate", name, "raises", type(e).__name__), repr(e))]
+    if sql == "" and name in ("prewhere", "force_index", "use_index"):
+        return []
+    toks = lex.lex(sql, cls)
+    pos1 = [i for i, tk in enumerate(toks) if tk.kind == "qid" and tk.value == "m1q"]
+    pos2 = [i for i, tk in enumerate(toks) if tk.kind == "qid" and tk.value == "m2q"]
+    if not pos1 or not pos2:
+        return [(mksig("accumulate", name, "call_lost"), "%s called twice (m1q, then m2q): %s is missing in %r" % (name, "the first call" if not pos1 else "the second call", sql))]
+    if min(pos2) < min(pos1):
+        return [(mksig("accumulate", name, "call_order"), "%s called with m1q, then m2q, renders them the other way round: %r" % (name, sql))]
+    return []
+
+
 def setop_program(case, tail):
     src = {"T": ["tbl", "t", None, None], "U": ["tbl", "u", None, None]}
     A = ["col", "T", "a"]
@@ -696,6 +770,8 @@ def check_case(case):
         return check_setop(case)
     if case.get("family") == "setop_incomplete":
         return check_incomplete_setop(case)
+    if case.get("family") == "accumulate":
+        return check_accumulate(case)
     return check(case)
 
 
@@ -705,6 +781,8 @@ def valid_case(case):
             return case in list(cte_cases())
         if case.get("family") == "setop_incomplete":
             return case in list(incomplete_setop_cases())
+        if case.get("family") == "accumulate":
+            return case in list(accumulate_cases())
         if case.get("family") == "setop":
             return case["cls"] in CTXS and case["op"] in SETOPS and case["optail"] in (0, 1, 2, 3, 4, 5, 6) and case["tail"] in SETOP_TAILS
         p = case["program"]
@@ -744,6 +822,10 @@ def run_shard(shard):
         for case in setop_cases():
             col.case(case, bool(case["tail"]), classes=("family:setop", "cls:" + case["cls"]))
             for sig, detail in check_setop(case):
+                col.violation(sig, case, detail)
+        for case in accumulate_cases():
+            col.case(case, True, classes=("family:accumulate",))
+            for sig, detail in check_accumulate(case):
                 col.violation(sig, case, detail)
         for case in incomplete_setop_cases():
             col.case(case, True, classes=("family:setop_incomplete",))
